@@ -22,6 +22,8 @@ pub mod c02;
 pub mod c08;
 #[cfg(feature = "c11")]
 pub mod c11;
+#[cfg(feature = "c01")]
+pub mod c01;
 #[cfg(feature = "c05")]
 pub mod c05;
 #[cfg(feature = "c09")]
@@ -44,6 +46,8 @@ pub fn tables() -> Vec<&'static [(&'static str, fn())]> {
     v.push(c08::TABLE);
     #[cfg(feature = "c11")]
     v.push(c11::TABLE);
+    #[cfg(feature = "c01")]
+    v.push(c01::TABLE);
     #[cfg(feature = "c05")]
     v.push(c05::TABLE);
     #[cfg(feature = "c09")]
